@@ -68,7 +68,7 @@ func (q *queueRun) restart(fuse int) {
 	if crashed {
 		return
 	}
-	q.c.Tr.Emit("QRestart", world.F{"node": "seq", "ok": err == nil})
+	q.c.Tr.Emit("QRestart", world.F{"node": "seq", "ok": err == nil, "bound": q.bound})
 	if err != nil {
 		q.seq = nil
 	}
@@ -300,6 +300,32 @@ func RunQueue(c *Ctx) {
 		}
 		q.drain()
 		c.Count("wfailruns", 1)
+	}
+	// a restart with another queue bound than the one the waiting batches were accepted under (an operator changes the
+	// setting): smaller than the backlog, equal to it, larger, unlimited
+	for bi, b0 := range []int{0, 6, 4} {
+		for _, b1 := range []int{1, 2, 3, 5, 0} {
+			for _, backlog := range []int{3, 5} {
+				if b0 != 0 && backlog > b0 {
+					continue
+				}
+				q := newQueueRun(c, fmt.Sprintf("rebound/%d/b%d-b%d/n%d", bi, b0, b1, backlog), b0)
+				q.c.Tr.Emit("QCfg", world.F{"src": "rebound"})
+				for i := 0; i < backlog; i++ {
+					q.submit(1, fmt.Sprintf("r%d", i), world.ChainID, -1, 0)
+				}
+				if backlog == 5 {
+					q.next(-1)
+				}
+				q.bound = b1
+				q.restart(-1)
+				q.submit(1, "after", world.ChainID, -1, 0)
+				q.next(-1)
+				q.submit(1, "after2", world.ChainID, -1, 0)
+				q.drain()
+				c.Count("reboundruns", 1)
+			}
+		}
 	}
 	// submitters racing for the last slot of a bounded queue, then a restart
 	for r := 0; r < 8; r++ {
